@@ -203,6 +203,20 @@ fn exec(out: &mut Out, w: &mut World, op: &Value) -> bool {
             let id = db.quoted_triple_store.write().unwrap().encode(a, p, o);
             out.ev(json!({"ev":"qenc","db":k,"spo":[idj(a),idj(p),idj(o)],"id":idj(id),"ret":idj(id),"isq":b(is_quoted_triple_id(id))}));
         }
+        // capacity boundary: the public allocation counters are moved close to the end of their range (identifiers need
+        // not be dense); the following encodes must hand out identifiers of the right range or refuse
+        "ff" => {
+            let left = op["left"].as_u64().unwrap() as u32;
+            let db = w.db(k);
+            let mut d = db.dictionary.write().unwrap();
+            d.next_id = d.next_id.max(shared::quoted_triple_store::QUOTED_TRIPLE_ID_BIT - left);
+        }
+        "qff" => {
+            let left = op["left"].as_u64().unwrap() as u32;
+            let db = w.db(k);
+            let mut q = db.quoted_triple_store.write().unwrap();
+            q.next_qt_id = q.next_qt_id.max(u32::MAX - left);
+        }
         "qencraw" => {
             let a: Vec<u32> = op["spo"].as_array().unwrap().iter().map(id_of).collect();
             let db = w.db(k);
@@ -341,6 +355,8 @@ fn run_case(out: &mut Out, run: &mut u64, case: &Value) {
         match guarded(|| exec(out, &mut w, op)) {
             Ok(true) => {}
             Ok(false) => break,
+            // a refusal at the end of the identifier range is the documented behaviour, not a crash
+            Err(msg) if msg.contains("ID space exhausted") => { out.ev(json!({"ev":"exhausted","op":op["op"]})); break; }
             Err(msg) => { out.ev(json!({"ev":"panic","op":op["op"],"msg":msg})); break; }
         }
     }
@@ -556,6 +572,19 @@ fn gen_cases(seed: u64, n: u64, seqops: u64, maxops: u64) -> Vec<Value> {
             1 | 2 => gen_merge(&mut rng, maxops),
             _ => gen_pair(&mut rng, maxops),
         });
+    }
+    // capacity boundaries of both identifier ranges (no snapshots: the raw counters exceed TLC's 32-bit integers)
+    for left in 0..4u64 {
+        let mut ops = vec![json!({"op":"enc","db":1,"s":"l0"}), json!({"op":"enc","db":1,"s":"http://e/i0"}), json!({"op":"ff","db":1,"left":left})];
+        for j in 0..5 { ops.push(json!({"op":"enc","db":1,"s":format!("http://e/n{j}")})); ops.push(json!({"op":"dec","db":1,"t":"l0"})); }
+        cases.push(json!({"kind":"boundary","ops":ops}));
+        let mut ops = vec![json!({"op":"enc","db":1,"s":"l0"}), json!({"op":"enc","db":1,"s":"l1"}), json!({"op":"enc","db":1,"s":"l2"}),
+                           json!({"op":"qenc","db":1,"t":["l0","l1","l2"]}), json!({"op":"qff","db":1,"left":left})];
+        for t in [["l1","l1","l2"], ["l2","l1","l0"], ["l0","l1","l1"], ["l2","l1","l2"], ["l1","l1","l1"]] {
+            ops.push(json!({"op":"qenc","db":1,"t":t}));
+            ops.push(json!({"op":"dec","db":1,"t":["l0","l1","l2"]}));
+        }
+        cases.push(json!({"kind":"boundary","ops":ops}));
     }
     // precondition coverage: a quoted triple over an identifier nobody handed out
     cases.push(json!({"kind":"seq","ops":[{"op":"enc","db":1,"s":"l0"},{"op":"qencraw","db":1,"spo":[[0,0],[0,7],[0,0]]},{"op":"snap","db":1}]}));
